@@ -322,45 +322,31 @@ def _spatial(ck: Checker, prog: Program):
         ck.ok("C14.R5", m.qualname, "kept iff the boundary mask contains the sensor; index = position in the coordinate list")
     else:
         ck.violation("C14.R5", m.qualname, "containment test", f"sensors are not kept exactly when the boundary mask contains them, with their own index ({why})", loc=m.loc())
-    # weights
+    # weights: by value - (area of every clipped cell, in the order of the tessellation) / (area of the mask), with the indices
+    # of that same tessellation
+    from ..pathtable import seq_form, SEQ, ELT
+    from .common import pkg_call_hook
     w = cls.methods["_voronoi_weights"]
-    RW = Resolver(prog, w, inline=False)
-    rets = [r for r in own_nodes(w.node) if isinstance(r, ast.Return)]
     good = False
     why = "return not recognised"
-    if len(rets) == 1 and isinstance(rets[0].value, ast.Tuple) and len(rets[0].value.elts) == 2:
-        e0, e1 = rets[0].value.elts
-        SELF, B = RW.expect("self"), RW.expect("boundary")
-        MASKV = sp.Function("_boundary_to_mask")(SELF, B)
-        BV = sp.Function("_bounded_voronoi")(SELF, MASKV)
-        gi = sp.Function("getitem")
+    R_ = lambda n: sp.Symbol(n, real=True)   # noqa: E731
+    F = sp.Function
+    gi = F("getitem")
+    wl = [l for l in PathTable(prog, w.module, call_hook=pkg_call_hook(prog, w.module, cls), unroll=True, map_loops=True).leaves(w.node.body) if l.exit == "return"]
+    if len(wl) == 1 and isinstance(wl[0].value, sp.Tuple) and len(wl[0].value) == 2:
+        SELF, B = R_("self"), R_("boundary")
+        MASKV = F("_boundary_to_mask")(SELF, B)
+        bvm = cls.methods["_bounded_voronoi"]
+        extra = [F("default")(Translator().tr(bvm.defaults()[p_])) for p_ in bvm.params[2:] if p_ in bvm.defaults()]
+        BV = F("_bounded_voronoi")(SELF, MASKV, *extra)         # further parameters (closing radius) at their defaults
         regions_v, indices_v = gi(BV, sp.Integer(0)), gi(BV, sp.Integer(1))
-        v1 = canon(RW.value(e1, rets[0]))
-        total = sp.Function("attr_area")(MASKV)
-
-        def area_of(reg):
-            return sp.Function("attr_area")(sp.Function("Polygon")(sp.Function("vstack")(sp.Tuple(reg, gi(reg, sp.Integer(0))))))
-        # areas: comprehension or fill loop
-        areas_ok = False
-        if isinstance(e0, ast.BinOp) and isinstance(e0.op, ast.Div):
-            den = canon(RW.value(e0.right, rets[0]))
-            num_node = e0.left
-            lps = [st for st in w.node.body if isinstance(st, ast.For)]
-            if isinstance(num_node, ast.Name) and len(lps) == 1:
-                lp2 = lps[0]
-                itv = canon(RW.value(lp2.iter, lp2))
-                if itv == sp.Function("enumerate")(regions_v) and isinstance(lp2.target, ast.Tuple) and len(lp2.target.elts) == 2:
-                    I2, REG = sp.Symbol("<i>", integer=True), sp.Symbol("<region>", real=True)
-                    sub = PathTable(prog, w.module, env={unparse(lp2.target.elts[0]): I2, unparse(lp2.target.elts[1]): REG}).leaves(lp2.body)
-                    st_ = [(sl.store_at[id(x[3])], x[2], x[3]) for sl in sub for x in sl.events if x[0] == "store" and id(x[3]) in sl.store_at]
-                    areas_ok = len(sub) == 1 and len(st_) == 1 and st_[0][0][1] == I2 and st_[0][1] == area_of(REG) \
-                        and isinstance(st_[0][2].targets[0].value, ast.Name) and st_[0][2].targets[0].value.id == num_node.id
-            else:
-                num = canon(RW.value(num_node, rets[0]))
-                it0 = sp.Symbol("_it0")
-                areas_ok = num == sp.Function("comp")(area_of(it0), sp.Function("gen")(it0, regions_v))
-            good = areas_ok and den == total and v1 == indices_v
-            why = f"areas ok: {areas_ok}; divided by {den}; indices {v1}"
+        total = F("attr_area")(MASKV)
+        area = F("attr_area")(F("Polygon")(F("vstack")(sp.Tuple(ELT, gi(ELT, sp.Integer(0))))))
+        got0, got1 = seq_form(wl[0].value[0]), wl[0].value[1]
+        want0 = SEQ(area, regions_v) / total
+        areas_ok = equal(got0, want0)
+        good = areas_ok and got1 == indices_v
+        why = f"areas ok: {areas_ok} ({str(got0)[:160]}); indices {got1}"
     if good:
         ck.ok("C14.R5", w.qualname, "weights = cell areas / area of the convex-hull mask; indices from the same tessellation")
     else:
